@@ -862,6 +862,9 @@ func instrReaches(a, b ssa.Instruction) bool {
 	if a.Block() == nil || b.Block() == nil {
 		return true
 	}
+	if f := b.Parent(); f != nil && len(f.Blocks) > 0 && b.Block() != f.Blocks[0] && !BlocksReachableFrom(f.Blocks[0])[b.Block()] {
+		return true // the recover block is entered from any panicking point, not along CFG edges
+	}
 	if a.Block() == b.Block() && instrIndex(a) < instrIndex(b) {
 		return true
 	}
